@@ -2,20 +2,24 @@ PLAN = {
     "property": "C18",
     "level": "proof",
     "manifest": {
-        "technique": "Verus (z3) on PrometheusBuilder::add_allowed_address extracted verbatim, against the documented address syntax with ipnet's / std's parsers as ASSUMED contracts (allowlist clauses only)",
-        "text": "Only the allowlist-construction clause is claimed: for every text in the documented syntax (a plain IP address or CIDR notation) add_allowed_address returns Ok and appends exactly the network the text denotes (the host network for a plain address); any other text is rejected with InvalidAllowlistAddress and nothing is added. Proved for all strings and all prior allowlists, given the parser contracts.",
-        "note": "ASSUMED: ipnet::IpNet::from_str accepts exactly CIDR notation, std IpAddr::from_str exactly address text, IpNet::from(ip) is the host network, IpNet::contains is membership. NOT decided: serving (200/403 over hyper/tokio, /health, recovery after aborted/malformed/concurrent requests) -- no function boundary a contract can name; check_tcp_allowed's `any(contains)` is two lines inside a closure over a TcpStream (by inspection only).",
+        "technique": "Verus (z3) on PrometheusBuilder::add_allowed_address, HttpListeningExporter::check_tcp_allowed and ::handle_http_request (async) extracted verbatim, with ipnet / std parsers and hyper's Request/Response as ASSUMED contracts",
+        "text": "Claimed per function: (a) for every text in the documented syntax (a plain IP address or CIDR notation) add_allowed_address returns Ok and appends exactly the network the text denotes (the host network for a plain address); any other text is rejected with InvalidAllowlistAddress and nothing is added. Proved for all strings and all prior allowlists, given the parser contracts. (b) check_tcp_allowed: with no allowlist every peer is allowed; with one, exactly the peers whose address lies in some listed network (an undeterminable peer address is refused). (c) handle_http_request: a refused peer gets status 403 with an empty body; an allowed peer gets 200, text/plain, body OK for path /health and the handle's rendering for every other path.",
+        "note": "ASSUMED: ipnet::IpNet::from_str accepts exactly CIDR notation, std IpAddr::from_str exactly address text, IpNet::from(ip) is the host network, IpNet::contains is membership. hyper Response/Request/HeaderMap/Full<Bytes> are stub types with assumed contracts; spawn_blocking(f).await.unwrap() is f's result. NOT decided: that process_tcp_stream hands check_tcp_allowed's answer to handle_http_request (a move-closure under service_fn + tokio::spawn), and the listener's survival of aborted/malformed/concurrent requests (accept loop, hyper connection tasks) -- whole-history behaviour of the runtime, no contract within reach.",
     },
-    "min_obligations": {"quick": 1, "thorough": 1},
+    "min_obligations": {"quick": 3, "thorough": 3},
     "assumptions": [
         "ipnet 2.x: IpNet::from_str is Ok exactly for `<ip>/<prefix>` text (dependency contract, read from its parser)",
         "std: IpAddr::from_str is Ok exactly for address text; an address text is never a CIDR text",
         "IpNet::from(IpAddr) is the /32 or /128 network of that host; IpNet::contains is subnet membership",
         "R14: built with feature http-listener; R15/R16/R11 rewrites (AsRef::as_ref shim, `mut self`, to_string shim)",
-        "HTTP serving, status codes, connection handling: not decided",
+        "hyper/http/http-body-util: Response::new is 200 with the given body, builder().status(s).body(b) is Ok with status s, HeaderMap::append appends, Full::from(text) carries the text; Uri::path is a function of the request",
+        "tokio::task::spawn_blocking(f).await.unwrap() returns f() (a panic inside render is outside the model)",
+        "TcpStream::peer_addr is a function of the stream; SocketAddr::ip is a function of the address",
+        "glue between the two (process_tcp_stream's closure), the accept loop and connection tasks: not decided",
     ],
     "verus": [
         {"template": "allowlist.verus.rs", "tier": "quick", "rlimit": 30, "min_functions": 1},
+        {"template": "serve.verus.rs", "tier": "quick", "rlimit": 30, "min_functions": 2},
     ],
     "kani": [{
         "crate": "metrics-exporter-prometheus", "cargo_args": ["--no-default-features", "--features", "http-listener"], "parallel": 2, "build_timeout": 3600,
